@@ -383,3 +383,56 @@ Definition object_check (c : otab * ihash N N * ores (list oattr) * option (ihas
   end.
 Definition object_mismatches (cs : list (otab * ihash N N * ores (list oattr) * option (ihash N N))) : list N :=
   failing object_check cs.
+
+(* ---- extensions of parameterized Object types: My::P[1, 'x'], My::P[{b => 'x'}] (Model/ObjectExt.v) ---- *)
+From PcoreV Require Import Model.ObjectExt.
+
+(* values are numbered by the harness up to px.Equals (XAtom); a Hash with String keys is given entry by entry *)
+Fixpoint xval_beq (a b : xval) : bool :=
+  match a, b with
+  | XDefault, XDefault => true
+  | XAtom x, XAtom y => N.eqb x y
+  | XHash h, XHash g =>
+      (fix go (h g : list (str * xval)) : bool :=
+         match h, g with
+         | [], [] => true
+         | (k, v) :: h', (k', v') :: g' => str_eqb k k' && xval_beq v v' && go h' g'
+         | _, _ => false
+         end) h g
+  | _, _ => false
+  end.
+
+(* the table of the pairs (parameter name, value) for which px.IsInstance(tp.Type(), value) answered true *)
+Definition ext_inst (tb : list (str * xval)) (k : str) (v : xval) : bool :=
+  existsb (fun p => str_eqb (fst p) k && xval_beq (snd p) v) tb.
+
+Definition xerr_eqb (a b : xerr) : bool :=
+  match a, b with
+  | XNotParameterized, XNotParameterized | XMissingParam, XMissingParam | XMismatch, XMismatch
+  | XEmptyList, XEmptyList => true
+  | _, _ => false
+  end.
+Definition xres_beq (a b : xres (list xval)) : bool :=
+  match a, b with
+  | XOk x, XOk y => list_eqb xval_beq x y
+  | XErr x, XErr y => xerr_eqb x y
+  | _, _ => false
+  end.
+
+(* (names of the declared type parameters in order, the arguments given to NewObjectTypeExtension - by the Go
+   constructor or by the resolver from a parsed text -, the instance table, Parameters() of the result or the issue
+   reported, Parameters() of the type that ParseType makes of its text) *)
+Definition ext_check (c : list str * list xval * list (str * xval) * xres (list xval) * option (xres (list xval))) : bool :=
+  let '(names, args, tb, obs, obs2) := c in
+  let inst := ext_inst tb in
+  xres_beq (print_ext inst names args) obs &&
+  match obs2 with
+  | None => true
+  | Some o2 =>
+      match initialize inst names args with
+      | XOk m => xres_beq (print_ext inst names (parameters inst names m)) o2
+      | XErr _ => false
+      end
+  end.
+Definition ext_mismatches (cs : list (list str * list xval * list (str * xval) * xres (list xval) * option (xres (list xval)))) : list N :=
+  failing ext_check cs.
